@@ -12,6 +12,17 @@ FIXED = [
 ]
 
 
+def many_diags():
+    """reports large enough that an unstable or size-dependent sort shows: two diagnostics per line (one from each pass)"""
+    out = []
+    for n in (8, 11, 12, 17, 21, 25, 33, 64):
+        out.append("put 5 into x\n" * n)
+        out.append("".join(f"put {i} into x\nsay x\n" for i in range(n)))
+        out.append("".join(f"let y be {i}\nput {i} into y\n" for i in range(n)) + "shout y\nshout y\n")
+        out.append("if true\n" + "put 1 into it\nput 5 into x\n" * n + "\n")
+    return out
+
+
 def run(chk):
     proved = setup(chk, "C19")
     rng = rng_for(chk, 19)
@@ -20,7 +31,7 @@ def run(chk):
     ill, _ = gen_prog.gen_programs(rng.randrange(10 ** 9), 150 if quick else 2000, illtyped=True)
     for k, v in stats.items():
         chk.count("gen:" + k, v)
-    progs = FIXED + gen + ill
+    progs = FIXED + many_diags() + gen + ill
     lines = [f"(ana l{i} lint {C.hx(p)})" for i, p in enumerate(progs)]
     res, _ = suite.compare(chk, lines, "lint", project=lambda x: x, suite_name="LINT", crash_is_violation=True)
     bad = 0
